@@ -27,7 +27,7 @@ ToSet(s) == {s[q] : q \in 1..Len(s)}
 Scale4(s) == [q \in 1..Len(s) |-> 4 * s[q]]
 
 TCase == /\ E.e = "Case" /\ Step /\ ci' = l /\ pl' = 0 /\ seen' = {"Case"}
-         /\ (WellFormed(E.c) /\ PairwiseDistinct(E.c.sol.x)) \/ Bad({"case"})
+         /\ (WellFormed(E.c) /\ PairwiseDistinct(E.c.sol.x) /\ E.c.sol.nx \in 0..Len(E.c.sol.x)) \/ Bad({"case"})
 
 TPerm == /\ E.e = "Perm" /\ ci # 0 /\ Step /\ UNCHANGED ci /\ seen' = seen \cup {"Perm"}
          /\ LET ok == E.err = "" /\ IsInversePair(E.perm, E.pinv, C.n)
@@ -110,15 +110,20 @@ SolSufWant(m, pi) ==
   LET s == m.sol
   IN {[name |-> s.vsuf.name, kind |-> 0, real |-> s.vsuf.real, v |-> [j \in 1..m.n |-> 4 * s.vsuf.v[pi[j] + 1]]]}
      \cup (IF s.csuf.present THEN {[name |-> s.csuf.name, kind |-> 1, real |-> s.csuf.real, v |-> Scale4(s.csuf.v)]} ELSE {})
+\* the .sol file may offer fewer primal values than the model has variables (sol.nx of them, in NL order):
+\* the others are 0 in the returned vector, which always has one entry per variable
+XOffered(m) == [p \in 1..Len(m.sol.x) |-> IF p <= m.sol.nx THEN m.sol.x[p] ELSE 0]
 SolWrong(m, pi, r, pre, withObj) ==
   {w \in {pre \o ".ok", pre \o ".code", pre \o ".x", pre \o ".y", pre \o ".suf", pre \o ".obj"} :
      CASE w = pre \o ".ok"   -> ~r.ok \/ r.err # ""
        [] w = pre \o ".code" -> r.code # m.sol.code
-       [] w = pre \o ".x"    -> r.x # Scale4(SolX(pi, m.sol.x))
+       \* (a file without primal values gives no vector at all)
+       [] w = pre \o ".x"    -> r.x # (IF m.sol.nx = 0 /\ Len(m.sol.x) > 0 THEN <<>> ELSE Scale4(SolX(pi, XOffered(m))))
        [] w = pre \o ".y"    -> r.y # Scale4(m.sol.y)
        [] w = pre \o ".suf"  -> Len(r.suf) # Cardinality(SolSufWant(m, pi)) \/ ToSet(r.suf) # SolSufWant(m, pi)
        \* obj = Obj(m, x in caller order); q4 units = 2 * (twice the value)
-       [] w = pre \o ".obj"  -> withObj /\ r.obj # 2 * SolObj2(m, pi, m.sol.x)}
+       \* (not judged when the file has no primal values: there is no point to evaluate the objective at)
+       [] w = pre \o ".obj"  -> withObj /\ ~(m.sol.nx = 0 /\ Len(m.sol.x) > 0) /\ r.obj # 2 * SolObj2(m, pi, XOffered(m))}
 TSol == /\ E.e \in {"Sol", "Obj"} /\ ci # 0 /\ Step /\ UNCHANGED <<ci, pl>> /\ seen' = seen \cup {E.e}
         /\ IF pl = 0 THEN Bad({"noperm"})
            ELSE LET wrong == SolWrong(C, Pi, E, IF E.e = "Sol" THEN "sol" ELSE "solve", E.e = "Obj")
